@@ -37,6 +37,10 @@ echo "--- property check on /repo with the change applied"
 cd /repo
 [ -z "$(git status --short | grep -v goyacc | grep -v '^??')" ] || { echo "REFUSING: /repo has uncommitted changes to tracked files"; exit 3; }
 git apply /verif/seeded/$name/patch.diff || { echo "patch does not apply to /repo"; exit 1; }
+# the run against the changed tree must not leave its evidence behind: the committed evidence belongs to the unchanged tree
+cp /verif/evidence/$prop.json /tmp/seedcheck_evidence_$prop.json 2>/dev/null
 (cd /verif && ./check $prop quick > /tmp/seedcheck_$name.log 2>&1; echo "check exit=$?"; grep -c "^VIOLATION" /tmp/seedcheck_$name.log; grep "failed obligation" /tmp/seedcheck_$name.log | cut -c1-220 | head -5; tail -1 /tmp/seedcheck_$name.log)
 git -C /repo apply -R /verif/seeded/$name/patch.diff
+[ -f /tmp/seedcheck_evidence_$prop.json ] && mv /tmp/seedcheck_evidence_$prop.json /verif/evidence/$prop.json
+rm -rf /verif/replays/$prop
 git -C /repo status --short | grep -v goyacc
